@@ -12,12 +12,32 @@ _NET = Network('bitcoin')
 
 
 def _hdkey_ctor(ip, args, kwargs):
-    """ASSUMED contract of HDKey(...) when called with derived key material at the end of a derivation function: the new
-    object records exactly the arguments it was given (HDKey.__init__ itself is under contract for C04 / C12)."""
+    """ASSUMED contract of HDKey(key=<32-byte secret | 33-byte compressed public key>, chain=..., depth=..., ...) as it is
+    called at the end of the derivation functions: the object records the arguments it was given, a 32-byte key is a
+    private key whose public form is the compressed serialisation of secret*G, a 33-byte key with is_private=False is a
+    public key.  (HDKey.__init__ / Key.__init__ themselves are the subject of C04 / C12.)"""
+    from pyvc import ops
+    from pyvc.models import int_from_bytes
     r = Rec(HDKey)
     r.attrs['__ctor_args__'] = dict(kwargs)
     for k, v in kwargs.items():
         r.attrs[k] = v
+    key = kwargs.get('key')
+    r.attrs.setdefault('compressed', True)
+    r.attrs['_hash160'] = None
+    r.attrs.setdefault('key_type', 'bip32')
+    if kwargs.get('is_private', True) and ops.seq_len(key) == 32:
+        sec = int_from_bytes(ip, [key, 'big'], {})
+        r.attrs.update(is_private=True, secret=sec, private_byte=key,
+                       public_byte=ip.call(bip32.ser_p, [ip.call(ec.mul_g, [sec])]))
+    elif ops.seq_len(key) == 33:
+        r.attrs.update(is_private=False, public_byte=key, secret=None, private_byte=None)
+        x = int_from_bytes(ip, [ops.seq_slice(ip.ctx, key, 1, None, None), 'big'], {})
+        from contracts import external
+        y = ops.wrap_int(external.uf(ip.ctx, 'decompress_y', [key], z3.IntSort()))
+        r.attrs.update(x=x, y=y)
+    if isinstance(r.attrs.get('network'), str):
+        r.attrs['network'] = Network(r.attrs['network'])
     return r
 
 
@@ -95,3 +115,105 @@ class child_public:
         d = rng.randrange(1, N)
         k = HDKey(key=d.to_bytes(32, 'big'), chain=bytes(rng.getrandbits(8) for _ in range(32)), depth=rng.randint(0, 5), network='bitcoin').public()
         return {'self': k, 'index': rng.choice([0, 1, 2 ** 31 - 1, 2 ** 31, 2 ** 31 + 1, 2 ** 32 - 1, rng.randrange(0, 2 ** 31)])}
+
+
+# ---------------------------------------------------------------------------------------------------
+from contracts.external import path_item
+
+MARKERS = ['', "'", 'h', 'H', 'p', 'P']
+
+
+def _step(key_state, n, marker):
+    """one path item applied to (kind, k_or_point, chain, depth): BIP32 child, or None when it must be refused.
+    An item is hardened if it carries a marker or its number is >= 2^31."""
+    kind, k, c, depth = key_state
+    hardened = marker != '' or n >= bip32.HARD
+    i = (n | 0x80000000) if hardened else n
+    if kind == 'private':
+        r = bip32.ckd_priv(k, c, i)
+        if r is None:
+            return None
+        return ('private', r[0], r[1], depth + 1, i)
+    if hardened:
+        return None                      # a hardened child of a public key does not exist
+    r = bip32.ckd_pub(k, c, i)
+    if r is None:
+        return None
+    return ('public', r[0], r[1], depth + 1, i)
+
+
+def _path_contract(L, private, markers):
+    name = 'path%d-%s-%s' % (L, 'priv' if private else 'pub', '_'.join(m or 'none' for m in markers))
+    params = {'self': _PrivT if private else _PubT}
+    for j in range(L):
+        params['n%d' % j] = Int(0, 2 ** 32 - 1)
+
+    def call(**kw):
+        return {'path': [path_item(kw['n%d' % j], markers[j]) for j in range(L)]}
+
+    return name, params, call
+
+
+def _mk_path(L, private, markers):
+    name, params, _ = _path_contract(L, private, markers)
+    ns = ['n%d' % j for j in range(L)]
+
+    def spec(self, nums):
+        st = ('private', self.secret, self.chain, self.depth) if private else ('public', (self.x, self.y), self.chain, self.depth)
+        last = None
+        for n, m in zip(nums, markers):
+            r = _step(st, n, m)
+            if r is None:
+                return None
+            st = r[:4]
+            last = r
+        return last
+
+    if L == 1:
+        def call(self, n0):
+            return {'path': [path_item(n0, markers[0])]}
+
+        def must_raise(self, n0):
+            return spec(self, [n0]) is None
+
+        def ensures(self, n0, result):
+            r = spec(self, [n0])
+            key = bip32.ser256(r[1]) if r[0] == 'private' else bip32.ser_p(r[1])
+            return _child_tuple(result)[0] == key and result.chain == r[2] and result.depth == r[3] and result.child_index == r[4]
+    else:
+        def call(self, n0, n1):
+            return {'path': [path_item(n0, markers[0]), path_item(n1, markers[1])]}
+
+        def must_raise(self, n0, n1):
+            return spec(self, [n0, n1]) is None
+
+        def ensures(self, n0, n1, result):
+            r = spec(self, [n0, n1])
+            key = bip32.ser256(r[1]) if r[0] == 'private' else bip32.ser_p(r[1])
+            return _child_tuple(result)[0] == key and result.chain == r[2] and result.depth == r[3] and result.child_index == r[4]
+
+    d = {'params': params, 'call': call, 'ensures': ensures, 'raises_iff': {BKeyError: must_raise},
+         'prepare': (lambda self, **kw: {'self': _real_priv(self)}) if private else
+                    (lambda self, **kw: {'self': HDKey(key=self.fields['public_byte'], chain=self.fields['chain'], depth=self.fields['depth'], network='bitcoin', is_private=False)}),
+         'bounded': None if L == 1 else 'two-item paths, random numbers and keys', 'native_only': L > 1,
+         '__doc__': 'subkey_for_path over a %d-item path (%s parent, markers %r): each item is the BIP32 child, hardened iff marked or >= 2^31; '
+                    'a hardened item under a public key raises' % (L, 'private' if private else 'public', markers)}
+    if private:
+        d['init'] = child_private.__dict__['init']
+    else:
+        d['init'] = child_public.__dict__['init']
+        if L == 1:
+            # as for child_public: the point-at-infinity child (probability 2^-256) is assumed away
+            d['requires'] = lambda self, n0: child_public.__dict__['requires'](self, n0)
+        else:
+            d['requires'] = lambda self: ec.on_curve((self.x, self.y))
+    cls = type(name, (), d)
+    return contract('bitcoinlib.keys.HDKey.subkey_for_path', case=name, props=('C03', 'C09'))(cls)
+
+
+PATH_CASES = []
+for _m in MARKERS:
+    PATH_CASES.append(_mk_path(1, True, [_m])._contract.key)
+    PATH_CASES.append(_mk_path(1, False, [_m])._contract.key)
+for _ms in [['', ''], ["'", ''], ['', 'h']]:
+    PATH_CASES.append(_mk_path(2, True, _ms)._contract.key)
